@@ -88,6 +88,8 @@ pub fn panic_class(msg: &str) -> String {
     let loc = msg.split(" @ ").nth(1).unwrap_or("");
     let file = loc.rsplit('/').next().unwrap_or(loc);
     let file = file.split(':').next().unwrap_or(file);
+    // `unwrap()` / `expect()` messages embed the error value after ": " — not part of the class
+    let head = if head.contains("unwrap()") || head.contains("expect(") { head.split(": ").next().unwrap_or(head) } else { head };
     let mut s: String = head.chars().filter(|c| !c.is_ascii_digit()).take(60).collect();
     s = s.replace('\n', " ");
     format!("{}@{}", s.trim(), file)
@@ -689,6 +691,14 @@ pub struct KnownFinding {
 pub fn verif_root() -> PathBuf {
     if let Ok(p) = std::env::var("VERIF_ROOT") {
         return PathBuf::from(p);
+    }
+    // <root>/harness/target/release/hcv  (or <scratch>/.hcv-build/target/release/hcv for mutant runs: then /verif)
+    if let Ok(exe) = std::env::current_exe() {
+        if let Some(root) = exe.ancestors().nth(4) {
+            if root.join("properties.jsonl").exists() && root.join("harness").exists() {
+                return root.to_path_buf();
+            }
+        }
     }
     PathBuf::from("/verif")
 }
